@@ -34,6 +34,24 @@ def make_recorder(over):
     return Rec(), log
 
 
+def make_rec_transformer(over):
+    """a NodeTransformer whose handlers only record that they were called (and change nothing)"""
+    from odata_query.visitor import NodeTransformer
+    log = []
+
+    class RecT(NodeTransformer):
+        def generic_visit(self, node):
+            log.append([type(node).__name__, "generic_visit"])
+            return super().generic_visit(node)
+
+    for k in over:
+        def h(self, node, k=k):
+            log.append([type(node).__name__, "visit_" + k])
+            return node
+        setattr(RecT, "visit_" + k, h)
+    return RecT(), log
+
+
 def make_transformer(over, swap):
     from odata_query import ast
     from odata_query.visitor import NodeTransformer
@@ -130,13 +148,15 @@ def run(ctx):
     for consts in plans:
         if not quick and consts["Wide"] == "TRUE":
             res = tlc.run("MC_C16", constants=consts, simulate=6000 // 16, depth=12, seed=ctx.seed + 16,
-                          keep_lines=lambda r: r.get("k") == "case", timeout=3000, check_count=False)
+                          keep_lines=lambda r: r.get("k") in ("case", "scope"), timeout=3000, check_count=False)
         else:
-            res = tlc.run("MC_C16", constants=consts, keep_lines=lambda r: r.get("k") == "case", timeout=7000, heap="12g")
+            res = tlc.run("MC_C16", constants=consts, keep_lines=lambda r: r.get("k") in ("case", "scope"), timeout=7000, heap="12g")
         ctx.add_tlc(res)
         if res.violation:
             ctx.violation({"kind": "model", "inv": res.violation}, {"tlc": res.raw_tail[-2000:]})
         recs += res.records
+    scope_checks(ctx, [r for r in recs if r.get("k") == "scope"])
+    recs = [r for r in recs if r.get("k") == "case"]
     seen = set()
     uniq = []
     for r in recs:
@@ -157,7 +177,14 @@ def run(ctx):
         except Exception as e:  # noqa
             ctx.violation(dict(key, what="visitor-raised", exc=type(e).__name__), {"case": r, "exc": str(e)[:200]})
             continue
-        cases.append({"id": len(cases) + 1, "tree": r["tree"], "over": r["over"], "log": log})
+        cases.append({"id": len(cases) + 1, "tree": r["tree"], "over": r["over"], "log": log, "base": "NodeVisitor"})
+        # --- the transformer dispatches like the visitor: every node once, in field order, to the handler named after its kind
+        rect, tlog = make_rec_transformer(r["over"])
+        try:
+            rect.visit(node)
+            cases.append({"id": len(cases) + 1, "tree": r["tree"], "over": r["over"], "log": tlog, "base": "NodeTransformer"})
+        except Exception as e:  # noqa
+            ctx.violation(dict(key, what="transformer-raised", exc=type(e).__name__), {"case": r, "exc": str(e)[:200]})
         # --- transformer
         ctx.traces += 1
         try:
@@ -228,6 +255,41 @@ def run(ctx):
     ctx.exhaustive = quick
 
 
+def scope_checks(ctx, recs):
+    """the shipped transformers change exactly what their handlers change, where lambda scopes nest, re-bind and end"""
+    from odata_query import ast
+    from odata_query.rewrite import AliasRewriter, IdentifierStripper
+    if not recs:
+        raise tlc.MachineryError("MC_C16 exported no scope record")
+    rec = recs[0]
+    aliases = {project.text(k): project.text(v) for k, v in rec["sigma"]}
+    shared = AliasRewriter(dict(aliases))
+    for c in rec["cases"]:
+        for how, mk in (("fresh", lambda: AliasRewriter(dict(aliases))), ("reused", lambda: shared)):
+            node = project.build(c["tree"])
+            ctx.traces += 1
+            try:
+                got = project.proj(mk().visit(node))
+            except Exception as e:  # noqa
+                ctx.violation({"what": "shipped-transformer-raised", "visitor": "alias", "exc": type(e).__name__}, {"tree": c["tree"], "msg": str(e)[:200]})
+                continue
+            if got != c["aliased"]:
+                ctx.violation({"what": "shipped-transformer-result", "visitor": "alias", "instance": how},
+                              {"tree": c["tree"], "aliases": aliases, "expected": c["aliased"], "got": got})
+            if project.proj(node) != c["tree"]:
+                ctx.violation({"what": "visitor-mutated-input", "visitor": "alias"}, {"tree": c["tree"], "after": project.proj(node)})
+        node = project.build(c["tree"])
+        ctx.traces += 1
+        try:
+            got = project.proj(IdentifierStripper(ast.Identifier("i")).visit(node))
+        except Exception as e:  # noqa
+            ctx.violation({"what": "shipped-transformer-raised", "visitor": "stripper", "exc": type(e).__name__}, {"tree": c["tree"], "msg": str(e)[:200]})
+            continue
+        if got != c["relative"]:
+            ctx.violation({"what": "shipped-transformer-result", "visitor": "stripper"}, {"tree": c["tree"], "expected": c["relative"], "got": got})
+    ctx.notes["scope_trees"] = len(rec["cases"])
+
+
 def validate_logs(ctx, cases, by_id):
     if not cases:
         return
@@ -248,7 +310,7 @@ def validate_logs(ctx, cases, by_id):
         ctx.traces += 1
         if v["v"] != "ok":
             c = by_id[cid]
-            ctx.violation({"what": "dispatch-trace-rejected", "verdict": v["v"], "over": c["over"][0] if c["over"] else "none"},
+            ctx.violation({"what": "dispatch-trace-rejected", "verdict": v["v"], "over": c["over"][0] if c["over"] else "none", "base": c.get("base", "")},
                           {"tree": c["tree"], "over": c["over"], "log": c["log"], "at": v["at"], "verdict": v["v"]})
 
 
